@@ -5,20 +5,22 @@ import Proofs.RepEq
 
 open GoVal
 
+variable {d : Bool}
+
 /-- values at the top of an expression are compared through `ValueOf(·).Interface()` -/
-def VRel (a b : GoVal) : Prop := RepEq a.unwrap b.unwrap
+def VRel (d : Bool) (a b : GoVal) : Prop := RepEq d a.unwrap b.unwrap
 
 /-- bindings: related as values; the renderer's `forloop` record is only related to itself -/
-def ERel (a b : GoVal) : Prop := VRel a b ∧ (isRec a = true ∨ isRec b = true → a = b)
+def ERel (d : Bool) (a b : GoVal) : Prop := VRel d a b ∧ (isRec a = true ∨ isRec b = true → a = b)
 
-theorem VRel.refl (a : GoVal) : VRel a a := RepEq.refl _
-theorem VRel.symm {a b : GoVal} (h : VRel a b) : VRel b a := RepEq.symm h
-theorem VRel.trans {a b c : GoVal} (h : VRel a b) (h' : VRel b c) : VRel a c := RepEq.trans h h'
-theorem RepEq.vrel {a b : GoVal} (h : RepEq a b) : VRel a b := h.unwrap
-theorem RepEq.erel {a b : GoVal} (h : RepEq a b) : ERel a b := ⟨h.unwrap, h.rec_eq⟩
-theorem ERel.refl (a : GoVal) : ERel a a := ⟨VRel.refl a, fun _ => rfl⟩
+theorem VRel.refl (a : GoVal) : VRel d a a := RepEq.refl _
+theorem VRel.symm {a b : GoVal} (h : VRel d a b) : VRel d b a := RepEq.symm h
+theorem VRel.trans {a b c : GoVal} (h : VRel d a b) (h' : VRel d b c) : VRel d a c := RepEq.trans h h'
+theorem RepEq.vrel {a b : GoVal} (h : RepEq d a b) : VRel d a b := h.unwrap
+theorem RepEq.erel {a b : GoVal} (h : RepEq d a b) : ERel d a b := ⟨h.unwrap, h.rec_eq⟩
+theorem ERel.refl (a : GoVal) : ERel d a a := ⟨VRel.refl a, fun _ => rfl⟩
 
-theorem VRel.toLiquid {a b : GoVal} (h : VRel a b) : VRel a.toLiquid b.toLiquid := by
+theorem VRel.toLiquid {a b : GoVal} (h : VRel d a b) : VRel d a.toLiquid b.toLiquid := by
   unfold VRel at *
   rwa [unwrap_toLiquid, unwrap_toLiquid]
 
@@ -29,53 +31,53 @@ theorem Unw.unwrap (v : GoVal) : Unw v.unwrap := unwrap_idem v
 theorem Unw.noDrop {u : GoVal} (h : Unw u) : noDrop u = true := by rw [← h]; exact unwrap_noDrop u
 
 /-- results of lookups -/
-def LRel : LRes → LRes → Prop
-  | .val a, .val b => RepEq a b
+def LRel (d : Bool) : LRes → LRes → Prop
+  | .val a, .val b => RepEq d a b
   | .unmodelled w, .unmodelled w' => w = w'
   | _, _ => False
 
-theorem LRel.refl (r : LRes) : LRel r r := by cases r <;> simp [LRel, RepEq.refl]
-theorem LRel.of_eq {r r' : LRes} (h : r = r') : LRel r r' := h ▸ LRel.refl r
+theorem LRel.refl (r : LRes) : LRel d r r := by cases r <;> simp [LRel, RepEq.refl]
+theorem LRel.of_eq {r r' : LRes} (h : r = r') : LRel d r r' := h ▸ LRel.refl r
 
 /-! ## Lists and entry lists with equal normal forms -/
 
-theorem normList_length {xs xs' : List GoVal} (h : normList xs = normList xs') : xs.length = xs'.length := by
+theorem normList_length {xs xs' : List GoVal} (h : normList d xs = normList d xs') : xs.length = xs'.length := by
   have := congrArg List.length h
   simpa [normList_eq_map] using this
 
-theorem normKVs_length {kvs kvs' : List (GoVal × GoVal)} (h : normKVs kvs = normKVs kvs') : kvs.length = kvs'.length := by
+theorem normKVs_length {kvs kvs' : List (GoVal × GoVal)} (h : normKVs d kvs = normKVs d kvs') : kvs.length = kvs'.length := by
   have := congrArg List.length h
   simpa [normKVs_eq_map] using this
 
-theorem norm_nil : GoVal.nil.norm = .nil := by simp [norm]
+theorem norm_nil : GoVal.nil.norm d = .nil := by simp [norm]
 
-theorem normList_getD {xs xs' : List GoVal} (h : normList xs = normList xs') (n : Nat) :
-    RepEq (xs.getD n .nil) (xs'.getD n .nil) := by
+theorem normList_getD {xs xs' : List GoVal} (h : normList d xs = normList d xs') (n : Nat) :
+    RepEq d (xs.getD n .nil) (xs'.getD n .nil) := by
   unfold RepEq
-  have e : ∀ ys : List GoVal, (ys.getD n .nil).norm = (normList ys).getD n .nil := by
+  have e : ∀ ys : List GoVal, (ys.getD n .nil).norm d = (normList d ys).getD n .nil := by
     intro ys
     simp only [normList_eq_map, List.getD_eq_getElem?_getD, List.getElem?_map]
     cases ys[n]? <;> simp [norm_nil]
   rw [e, e, h]
 
-theorem normList_head {xs xs' : List GoVal} (h : normList xs = normList xs') :
-    RepEq (xs.head?.getD .nil) (xs'.head?.getD .nil) := by
+theorem normList_head {xs xs' : List GoVal} (h : normList d xs = normList d xs') :
+    RepEq d (xs.head?.getD .nil) (xs'.head?.getD .nil) := by
   unfold RepEq
-  have e : ∀ ys : List GoVal, (ys.head?.getD .nil).norm = (normList ys).head?.getD .nil := by
+  have e : ∀ ys : List GoVal, (ys.head?.getD .nil).norm d = (normList d ys).head?.getD .nil := by
     intro ys; cases ys <;> simp [normList, norm_nil]
   rw [e, e, h]
 
-theorem normList_getLast {xs xs' : List GoVal} (h : normList xs = normList xs') :
-    RepEq (xs.getLast?.getD .nil) (xs'.getLast?.getD .nil) := by
+theorem normList_getLast {xs xs' : List GoVal} (h : normList d xs = normList d xs') :
+    RepEq d (xs.getLast?.getD .nil) (xs'.getLast?.getD .nil) := by
   unfold RepEq
-  have e : ∀ ys : List GoVal, (ys.getLast?.getD .nil).norm = (normList ys).getLast?.getD .nil := by
+  have e : ∀ ys : List GoVal, (ys.getLast?.getD .nil).norm d = (normList d ys).getLast?.getD .nil := by
     intro ys
     simp only [normList_eq_map, List.getLast?_map]
     cases ys.getLast? <;> simp [norm_nil]
   rw [e, e, h]
 
 theorem mapFind_normKVs (kvs : List (GoVal × GoVal)) (k : GoVal) :
-    mapFind (normKVs kvs) k = (mapFind kvs k).map norm := by
+    mapFind (normKVs d kvs) k = (mapFind kvs k).map (norm d) := by
   induction kvs with
   | nil => rfl
   | cons kv kvs ih =>
@@ -86,10 +88,10 @@ theorem mapFind_normKVs (kvs : List (GoVal × GoVal)) (k : GoVal) :
     | true => rfl
     | false => exact ih
 
-theorem mapFind_rel {kvs kvs' : List (GoVal × GoVal)} (h : normKVs kvs = normKVs kvs') (k : GoVal) :
-    RepEq ((mapFind kvs k).getD .nil) ((mapFind kvs' k).getD .nil) ∧ ((mapFind kvs k).isSome = (mapFind kvs' k).isSome) := by
-  have e := mapFind_normKVs kvs k
-  have e' := mapFind_normKVs kvs' k
+theorem mapFind_rel {kvs kvs' : List (GoVal × GoVal)} (h : normKVs d kvs = normKVs d kvs') (k : GoVal) :
+    RepEq d ((mapFind kvs k).getD .nil) ((mapFind kvs' k).getD .nil) ∧ ((mapFind kvs k).isSome = (mapFind kvs' k).isSome) := by
+  have e := mapFind_normKVs (d := d) kvs k
+  have e' := mapFind_normKVs (d := d) kvs' k
   rw [h] at e
   rw [e'] at e
   unfold RepEq
@@ -97,8 +99,8 @@ theorem mapFind_rel {kvs kvs' : List (GoVal × GoVal)} (h : normKVs kvs = normKV
 
 /-! ## Property lookup -/
 
-theorem propList_rel {xs xs' : List GoVal} (h : normList xs = normList xs') (name : Bytes) :
-    LRel (propertyValue.propList name xs) (propertyValue.propList name xs') := by
+theorem propList_rel {xs xs' : List GoVal} (h : normList d xs = normList d xs') (name : Bytes) :
+    LRel d (propertyValue.propList name xs) (propertyValue.propList name xs') := by
   unfold propertyValue.propList
   split
   · exact normList_head h
@@ -108,8 +110,8 @@ theorem propList_rel {xs xs' : List GoVal} (h : normList xs = normList xs') (nam
       · simp [LRel, normList_length h, RepEq.refl]
       · simp [LRel, RepEq.refl]
 
-theorem propertyValue_unw_rel {u u' : GoVal} (hu : Unw u) (hu' : Unw u') (h : RepEq u u') (name : Bytes) :
-    LRel (propertyValue u name) (propertyValue u' name) := by
+theorem propertyValue_unw_rel {u u' : GoVal} (hu : Unw u) (hu' : Unw u') (h : RepEq d u u') (name : Bytes) :
+    LRel d (propertyValue u name) (propertyValue u' name) := by
   cases u with
   | drop w => exact absurd hu.noDrop (by simp [noDrop])
   | slice t xs =>
@@ -123,8 +125,8 @@ theorem propertyValue_unw_rel {u u' : GoVal} (hu : Unw u) (hu' : Unw u') (h : Re
     · exact LRel.refl _
     · simp only [propertyValue, unwrap]
       have hl := normKVs_length hn
-      have key : ∀ (f f' : Option GoVal), f.isSome = f'.isSome → RepEq (f.getD .nil) (f'.getD .nil) →
-          LRel (match f with
+      have key : ∀ (f f' : Option GoVal), f.isSome = f'.isSome → RepEq d (f.getD .nil) (f'.getD .nil) →
+          LRel d (match f with
                 | some v => .val v
                 | none => if name == sizeKey then .val (.int .int kvs.length) else .val .nil)
                (match f' with
@@ -145,15 +147,15 @@ theorem propertyValue_eq_unwrap (v : GoVal) (name : Bytes) : propertyValue v nam
   unfold propertyValue
   rw [unwrap_idem]
 
-theorem propertyValue_rel {a b : GoVal} (h : VRel a b) (name : Bytes) :
-    LRel (propertyValue a name) (propertyValue b name) := by
+theorem propertyValue_rel {a b : GoVal} (h : VRel d a b) (name : Bytes) :
+    LRel d (propertyValue a name) (propertyValue b name) := by
   rw [propertyValue_eq_unwrap a, propertyValue_eq_unwrap b]
   exact propertyValue_unw_rel (Unw.unwrap a) (Unw.unwrap b) h name
 
 /-! ## Index lookup -/
 
-theorem indexList_rel {xs xs' : List GoVal} (h : normList xs = normList xs') (i : GoVal) :
-    LRel (indexValue.indexList xs i) (indexValue.indexList xs' i) := by
+theorem indexList_rel {xs xs' : List GoVal} (h : normList d xs = normList d xs') (i : GoVal) :
+    LRel d (indexValue.indexList xs i) (indexValue.indexList xs' i) := by
   unfold indexValue.indexList
   simp only [normList_length h]
   repeat' split
@@ -164,8 +166,8 @@ theorem indexValue_eq_unwrap (r i : GoVal) : indexValue r i = indexValue r.unwra
   rw [unwrap_idem, unwrap_idem]
 
 /-- related receivers, the same index -/
-theorem indexValue_recv_rel {u u' : GoVal} (hu : Unw u) (hu' : Unw u') (h : RepEq u u') (i : GoVal) :
-    LRel (indexValue u i) (indexValue u' i) := by
+theorem indexValue_recv_rel {u u' : GoVal} (hu : Unw u) (hu' : Unw u') (h : RepEq d u u') (i : GoVal) :
+    LRel d (indexValue u i) (indexValue u' i) := by
   cases u with
   | drop w => exact absurd hu.noDrop (by simp [noDrop])
   | slice t xs =>
@@ -238,7 +240,7 @@ theorem indexValue_nonrigid {u i : GoVal} (hu : Unw u) (hi : rigidHead i = false
   · rfl
 
 /-- the same receiver, related indices -/
-theorem indexValue_idx_eq {u i i' : GoVal} (hu : Unw u) (hi : Unw i) (hi' : Unw i') (h : RepEq i i') :
+theorem indexValue_idx_eq {u i i' : GoVal} (hu : Unw u) (hi : Unw i) (hi' : Unw i') (h : RepEq d i i') :
     indexValue u i = indexValue u i' := by
   cases hr : rigidHead i with
   | true => rw [norm_inv_rigid hr hi'.noDrop h]
@@ -249,15 +251,15 @@ theorem indexValue_idx_eq {u i i' : GoVal} (hu : Unw u) (hi : Unw i) (hi' : Unw 
       | true => rw [norm_inv_rigid hr' hi.noDrop h.symm, hr'] at hr; cases hr
     rw [indexValue_nonrigid hu hr hi, indexValue_nonrigid hu hr' hi']
 
-theorem indexValue_rel {r r' i i' : GoVal} (hr : VRel r r') (hi : VRel i i') :
-    LRel (indexValue r i) (indexValue r' i') := by
+theorem indexValue_rel {r r' i i' : GoVal} (hr : VRel d r r') (hi : VRel d i i') :
+    LRel d (indexValue r i) (indexValue r' i') := by
   rw [indexValue_eq_unwrap r i, indexValue_eq_unwrap r' i',
     indexValue_idx_eq (Unw.unwrap r) (Unw.unwrap i) (Unw.unwrap i') hi]
   exact indexValue_recv_rel (Unw.unwrap r) (Unw.unwrap r') hr _
 
 /-! ## Integer use, truth, nil test -/
 
-theorem intOf_rel {a b : GoVal} (h : VRel a b) : a.intOf = b.intOf := by
+theorem intOf_rel {a b : GoVal} (h : VRel d a b) : a.intOf = b.intOf := by
   unfold intOf
   have hb := (Unw.unwrap b).noDrop
   have ha := (Unw.unwrap a).noDrop
@@ -271,7 +273,7 @@ theorem intOf_rel {a b : GoVal} (h : VRel a b) : a.intOf = b.intOf := by
     revert hr hr'
     cases a.unwrap <;> cases b.unwrap <;> simp [rigidHead]
 
-theorem test_rel {a b : GoVal} (h : VRel a b) : a.test = b.test := by
+theorem test_rel {a b : GoVal} (h : VRel d a b) : a.test = b.test := by
   unfold test
   have hb := (Unw.unwrap b).noDrop
   have ha := (Unw.unwrap a).noDrop
@@ -286,7 +288,7 @@ theorem test_rel {a b : GoVal} (h : VRel a b) : a.test = b.test := by
     cases a.unwrap <;> cases b.unwrap <;> simp [rigidHead, noDrop]
 
 /-- two related unwrapped values are the same rigid value, or both are containers -/
-theorem unw_rel_cases {u u' : GoVal} (hu : Unw u) (hu' : Unw u') (h : RepEq u u') :
+theorem unw_rel_cases {u u' : GoVal} (hu : Unw u) (hu' : Unw u') (h : RepEq d u u') :
     u' = u ∨ (rigidHead u = false ∧ rigidHead u' = false) := by
   cases hr : rigidHead u with
   | true => exact .inl (norm_inv_rigid hr hu'.noDrop h)
@@ -295,18 +297,18 @@ theorem unw_rel_cases {u u' : GoVal} (hu : Unw u) (hu' : Unw u') (h : RepEq u u'
     | false => exact .inr ⟨rfl, rfl⟩
     | true => exact .inl (norm_inv_rigid hr' hu.noDrop h.symm).symm
 
-theorem isNil_rel {u u' : GoVal} (hu : Unw u) (hu' : Unw u') (h : RepEq u u') : u.isNil = u'.isNil := by
+theorem isNil_rel {u u' : GoVal} (hu : Unw u) (hu' : Unw u') (h : RepEq d u u') : u.isNil = u'.isNil := by
   rcases unw_rel_cases hu hu' h with rfl | ⟨h1, h2⟩
   · rfl
   · cases u <;> cases u' <;> simp_all [rigidHead, isNil]
 
 /-! ## Loop items -/
 
-theorem mkPair_norm (k v : GoVal) : (mkPair k v).norm = .slice .any [k.norm, v.norm] := by
+theorem mkPair_norm (k v : GoVal) : (mkPair k v).norm d = .slice .any [k.norm d, v.norm d] := by
   simp [mkPair, norm, normList]
 
-theorem loopItems_unw_rel {u u' : GoVal} (hu : Unw u) (hu' : Unw u') (h : RepEq u u') :
-    (∃ xs xs', loopItems u = .ok xs ∧ loopItems u' = .ok xs' ∧ normList xs = normList xs') ∨
+theorem loopItems_unw_rel {u u' : GoVal} (hu : Unw u) (hu' : Unw u') (h : RepEq d u u') :
+    (∃ xs xs', loopItems u = .ok xs ∧ loopItems u' = .ok xs' ∧ normList d xs = normList d xs') ∨
     (loopItems u = loopItems u' ∧ ∀ xs, loopItems u ≠ .ok xs) := by
   cases u with
   | drop w => exact absurd hu.noDrop (by simp [noDrop])
@@ -321,8 +323,8 @@ theorem loopItems_unw_rel {u u' : GoVal} (hu : Unw u) (hu' : Unw u') (h : RepEq 
     · exact .inl ⟨_, _, rfl, rfl, rfl⟩
     · refine .inl ⟨_, _, rfl, rfl, ?_⟩
       simp only [normList_eq_map, List.map_map]
-      have : ∀ l : List (GoVal × GoVal), List.map (norm ∘ fun kv => mkPair kv.1 kv.2) l
-          = List.map (fun kv => GoVal.slice .any [kv.1.norm, kv.2]) (normKVs l) := by
+      have : ∀ l : List (GoVal × GoVal), List.map (norm d ∘ fun kv => mkPair kv.1 kv.2) l
+          = List.map (fun kv => GoVal.slice .any [kv.1.norm d, kv.2]) (normKVs d l) := by
         intro l
         simp only [normKVs_eq_map, List.map_map]
         apply List.map_congr_left
@@ -338,16 +340,16 @@ theorem loopItems_unw_rel {u u' : GoVal} (hu : Unw u) (hu' : Unw u') (h : RepEq 
        | ok xs => exact .inl ⟨xs, xs, rfl, rfl, rfl⟩
        | _ => exact .inr ⟨rfl, by simp⟩)
 
-theorem selectItems_rel {xs xs' : List GoVal} (h : normList xs = normList xs') (rev : Bool) (off lim : Option Int) :
-    normList (selectItems rev off lim xs) = normList (selectItems rev off lim xs') := by
+theorem selectItems_rel {xs xs' : List GoVal} (h : normList d xs = normList d xs') (rev : Bool) (off lim : Option Int) :
+    normList d (selectItems rev off lim xs) = normList d (selectItems rev off lim xs') := by
   simp only [normList_eq_map] at h ⊢
-  have hrev : ∀ {a a' : List GoVal}, List.map norm a = List.map norm a' → List.map norm a.reverse = List.map norm a'.reverse := by
+  have hrev : ∀ {a a' : List GoVal}, List.map (norm d) a = List.map (norm d) a' → List.map (norm d) a.reverse = List.map (norm d) a'.reverse := by
     intro a a' e; rw [List.map_reverse, List.map_reverse, e]
-  have hdrop : ∀ {a a' : List GoVal} (n : Nat), List.map norm a = List.map norm a' →
-      List.map norm (a.drop n) = List.map norm (a'.drop n) := by
+  have hdrop : ∀ {a a' : List GoVal} (n : Nat), List.map (norm d) a = List.map (norm d) a' →
+      List.map (norm d) (a.drop n) = List.map (norm d) (a'.drop n) := by
     intro a a' n e; rw [List.map_drop, List.map_drop, e]
-  have htake : ∀ {a a' : List GoVal} (n : Nat), List.map norm a = List.map norm a' →
-      List.map norm (a.take n) = List.map norm (a'.take n) := by
+  have htake : ∀ {a a' : List GoVal} (n : Nat), List.map (norm d) a = List.map (norm d) a' →
+      List.map (norm d) (a.take n) = List.map (norm d) (a'.take n) := by
     intro a a' n e; rw [List.map_take, List.map_take, e]
   unfold selectItems
   cases rev <;> cases off <;> cases lim <;> simp only [Bool.false_eq_true, if_false, if_true] <;>
@@ -364,7 +366,7 @@ theorem selectItems_rel {xs xs' : List GoVal} (h : normList xs = normList xs') (
 
 /-! ## The cycle counters of the `forloop` record -/
 
-theorem cyclesOf_erel {a b : GoVal} (h : ERel a b) :
+theorem cyclesOf_erel {a b : GoVal} (h : ERel d a b) :
     a = b ∨ (cyclesOf a = none ∧ cyclesOf b = none) := by
   cases ha : isRec a with
   | true => exact .inl (h.2 (.inl ha))
